@@ -62,6 +62,39 @@ def rewrite(root_bytes, path, kind, rng):
     return root.ser(), what
 
 
+def grid_cases(ctx):
+    """the product the property quantifies over, made systematically rather than hoped for: each string
+    type and BOOLEAN x taggings (none, IMPLICIT/EXPLICIT, short/long tag numbers, stacked) x positions
+    (alone; first, middle and last of several equal-typed elements of SEQUENCE OF / SET OF; a SEQUENCE
+    member after an equal-typed member; inside an EXPLICIT-tagged inner SEQUENCE)"""
+    g = gen.Gen(ctx.rng)
+    leaves = [('octs',), ('bits',), ('bool',), ('str', 'UTF8String'), ('str', 'IA5String'), ('str', 'UTCTime')]
+    def taggings(L):
+        n1, n2 = ctx.rng.choice([31, 40, 127, 128, 1000, 16384]), ctx.rng.choice([0, 5, 30])
+        return [L, ('imp', (128, 0, n2), L), ('imp', (128, 0, n1), L), ('exp', (128, 0, n2), L), ('exp', (64, 0, n1), L),
+                ('imp', (192, 0, n1), ('exp', (128, 0, n2), L)), ('exp', (128, 0, n1), ('imp', (64, 0, n1), L))]
+    out = []
+    for L in leaves:
+        ts = taggings(L)
+        if ctx.tier == 'quick':
+            ts = ctx.rng.sample(ts, 3)
+        for E in ts:
+            vs = [g.val(E) for _ in range(3)]
+            if L == ('bool',):
+                vs = [('b', True)] * 3
+            shapes = [(E, vs[0]), (('seqof', E), ('list', vs)), (('setof', E), ('list', vs)),
+                      (('seq', [('req', ('int',)), ('req', E), ('req', ('exp', (128, 0, 9), ('seq', [('req', E), ('opt', ('null',))])))]),
+                       ('rec', [('i', 5), vs[0], ('rec', [vs[1], None])]))]
+            for T, v in shapes:
+                if not gen.wf(T):
+                    continue
+                try:
+                    out.append(codec.Case(T, v))
+                except Exception:
+                    ctx.stats['grid_unbuildable'] += 1
+    return out
+
+
 def run(ctx):
     ctx.rule = ('valid DER encodings of random values; every single non-canonical rewrite of one element (definite->indefinite length of a '
                 'constructed element, primitive->segmented string of each string type, FF->other non-zero BOOLEAN) at every position and '
@@ -71,6 +104,8 @@ def run(ctx):
     exprs, meta = [], []
     for implicit_ok in (True, False):
         g_cases = codec.gen_cases(ctx, ctx.n(40, 600), depth=3, implicit_ok=implicit_ok, any_ok=False, untagged_choice_ok=implicit_ok)
+        if implicit_ok:
+            g_cases = grid_cases(ctx) + g_cases
         for c in g_cases:
             e = I.run_encode('DER', c.obj)
             if e[0] != 'ok': continue
